@@ -1,4 +1,4 @@
-import QcelVerif.Model.Hash
+import QcelVerif.Model.HashConcrete
 import QcelVerif.Lib.Proto
 /-! Line-protocol driver for the C11 model.
 
@@ -61,13 +61,11 @@ def showBonds : Option (List Bond) → String
 def showFrags (l : List (List Int)) : String :=
   if l.isEmpty then "E" else ";".intercalate (l.map showIntList)
 
-/-- the concrete parameters: CPython `repr` for short decimals; `sha1` left to the harness -/
+/-- the concrete parameters (`Model/HashConcrete.lean: concreteParams`: `fl := rndDouble`, `reprF := reprRd`,
+`reprB := reprRat` — proved to satisfy `FlOk` / the printing hypotheses in `Props/C11Concrete.lean`);
+`sha1` left to the harness -/
 def drvParams (tbl : List (List Char × Dbl)) : Params (List Char) :=
-  { massOf := fun s => (tbl.lookup s).getD (.val 0)
-    fl := rndDouble
-    reprF := reprRd
-    reprB := reprRat
-    sha1 := id }
+  concreteParams (fun s => (tbl.lookup s).getD (.val 0)) id
 
 def stepHash (f : List String) : String :=
   match f with
